@@ -152,12 +152,7 @@ impl Property for C17 {
     }
     fn judge_tape(&self, tape: &[u8], ctx: &mut Ctx) -> Judged {
         let mut t = Tape::new(tape);
-        let n = COUNTER.with(|c| {
-            let mut c = c.borrow_mut();
-            *c += 1;
-            *c
-        });
-        let sample = ctx.counting && n % ctx.tier.pick(130, 400) == 0;
+        let sample = tape_sample(tape, ctx.tier.pick(130, 400));
         if t.byte() % 2 == 0 {
             let g = generate(&mut t, &Profile::full());
             let src = render::text(&g.prog, render::Style::Minimal);
